@@ -55,7 +55,7 @@ theorem snapGetReader_frame (s : St) (i f : Nat) (keep : Bool) : Frame s (snapGe
 
 macro "frame_tac" : tactic =>
   `(tactic| (constructor <;>
-      simp only [jAlloc, allocFile, jCreate, createFiles, jLock, setLock, jSnap, buildVersion, snapAcquire, jSwap,
+      simp only [jAlloc, allocFile, jCreate, createFiles, jLock, setLock, jSnap, buildVersion, buildVersionAt, snapAcquire, jSwap,
         swapVersion, noteFlush, jSnapU, cloneVersion, jLockU, jCheck, jUnlock, jUnpend, unpend, setCompacting, doList, doPend, doActive, doRollup, doEvict,
         evictFile, doRemove, removeFile, jFinish, setPc, St.setJob, St.setSnap, snapDec, snapRel, spawnJob, cleanFiles] <;>
       grind [upd]))
@@ -65,7 +65,7 @@ theorem frame_setPc (s : St) (j : Nat) (pc : Pc) : Frame s (setPc s j pc) := by 
 theorem frame_jAlloc (s : St) (j : Nat) (c : Content) (l : Nat) : Frame s (jAlloc s j c l) := by frame_tac
 theorem frame_jCreate (cfg : Cfg) (s : St) (j : Nat) : Frame s (jCreate cfg s j) := by frame_tac
 theorem frame_jLock (s : St) (j : Nat) : Frame s (jLock s j) := by frame_tac
-theorem frame_jSnap (s : St) (j : Nat) : Frame s (jSnap s j) := by frame_tac
+theorem frame_jSnap (s : St) (j : Nat) (h : (s.job j).nfRead = s.nextFile) : Frame s (jSnap s j) := by frame_tac
 theorem frame_jSnapU (s : St) (j : Nat) : Frame s (jSnapU s j) := by frame_tac
 theorem frame_jLockU (s : St) (j : Nat) : Frame s (jLockU s j) := by frame_tac
 theorem frame_jSwap (s : St) (j : Nat) : Frame s (jSwap s j) := by frame_tac
@@ -121,7 +121,9 @@ theorem frame_jRead (s : St) (j : Nat) : Frame s (jRead s j) := by
     · exact Frame.trans (frame_setJob s j _) (snapGetReader_frame _ _ _ _)
     · exact frame_setPc s j _
 
-theorem frame_jstep {cfg : Cfg} {s s' : St} {j : Nat} (hs : jstep cfg s j = some s') : Frame s s' := by
+theorem frame_jstep {cfg : Cfg} {s s' : St} {j : Nat}
+    (hnf : ∀ k, k < s.nJob → (s.job k).pc = .cLocked → (s.job k).nfRead = s.nextFile)
+    (hs : jstep cfg s j = some s') : Frame s s' := by
   unfold jstep at hs
   split at hs
   case isFalse => cases hs
@@ -157,7 +159,7 @@ theorem frame_jstep {cfg : Cfg} {s s' : St} {j : Nat} (hs : jstep cfg s j = some
     split at hs
     · cases hs; exact frame_jLockU _ _
     · cases hs
-  case h_8 hpc => cases hs; exact frame_jSnap _ _
+  case h_8 hpc => cases hs; exact frame_jSnap _ _ (hnf j hj hpc)
   case h_9 hpc => cases hs; exact frame_jSwap _ _
   case h_10 hpc => cases hs; exact frame_jCheck _ _
   case h_11 hpc => cases hs; exact frame_jPrevRm _ _ _
@@ -208,7 +210,9 @@ theorem frame_jstep {cfg : Cfg} {s s' : St} {j : Nat} (hs : jstep cfg s j = some
     · cases hs; exact frame_doRemove _ _ _ _
   case h_27 hpc => cases hs
 
-theorem frame_step {cfg : Cfg} {s s' : St} {a : Act} (hs : step cfg s a = some s') : Frame s s' := by
+theorem frame_step {cfg : Cfg} {s s' : St} {a : Act}
+    (hnf : ∀ k, k < s.nJob → (s.job k).pc = .cLocked → (s.job k).nfRead = s.nextFile)
+    (hs : step cfg s a = some s') : Frame s s' := by
   cases a with
   | acquire => simp only [step] at hs; cases hs; exact frame_snapAcquire _ _
   | getReader i f =>
@@ -239,20 +243,11 @@ theorem frame_step {cfg : Cfg} {s s' : St} {a : Act} (hs : step cfg s a = some s
     · cases hs; exact frame_snapRel _ _
     · cases hs
   | spawn k p => simp only [step] at hs; cases hs; exact frame_spawn _ _ _
-  | jstep j => exact frame_jstep hs
+  | jstep j => exact frame_jstep hnf hs
   | cleanup fs =>
     simp only [step] at hs
     split at hs
     · cases hs; exact frame_cleanFiles _ _
     · cases hs
-
-theorem frame_run {cfg : Cfg} {acts : List Act} {s s' : St} (h : run cfg s acts = some s') : Frame s s' := by
-  induction acts generalizing s with
-  | nil => simp only [run] at h; cases h; exact Frame.refl _
-  | cons a rest ih =>
-    simp only [run] at h
-    split at h
-    next s1 hs1 => exact Frame.trans (frame_step hs1) (ih h)
-    next => cases h
 
 end LinVerif.Lemmas.C02
